@@ -81,9 +81,9 @@ func fmtParams() []fmtParam {
 		fmtParam{"string", "date-time", []fmtVal{{tm("2023-11-14T22:13:20Z"), "2023-11-14T22:13:20Z"}, {tm("2023-11-14T22:13:20+05:30"), "2023-11-14T22:13:20+05:30"}}},
 		fmtParam{"string", "duration", []fmtVal{{num("3723000000000"), "1h2m3s"}, {num("0"), "0s"}, {num("-1500000000"), "-1.5s"}}},
 		fmtParam{"string", "uuid", []fmtVal{{"123e4567-e89b-12d3-a456-426614174000", "123e4567-e89b-12d3-a456-426614174000"}}},
-		fmtParam{"string", "ip", []fmtVal{{"1.2.3.4", "1.2.3.4"}, {"2001:db8::1", "2001:db8::1"}}},
+		fmtParam{"string", "ip", []fmtVal{{"1.2.3.4", "1.2.3.4"}, {"2001:db8::1", "2001:db8::1"}, {"::ffff:10.0.0.1", "::ffff:10.0.0.1"}}},
 		fmtParam{"string", "ipv4", []fmtVal{{"255.255.255.255", "255.255.255.255"}}},
-		fmtParam{"string", "ipv6", []fmtVal{{"::1", "::1"}}},
+		fmtParam{"string", "ipv6", []fmtVal{{"::1", "::1"}, {"::ffff:192.0.2.1", "::ffff:192.0.2.1"}}},
 		fmtParam{"string", "uri", []fmtVal{{"http://example.com/p?q=1#f", "http://example.com/p?q=1#f"}}},
 		fmtParam{"number", "float", []fmtVal{{num("0.5"), "0.5"}, {num("16777216"), "16777216"}}},
 		fmtParam{"number", "double", []fmtVal{{num("0.00000000001"), "0.00000000001"}, {num("-2.5"), "-2.5"}}},
